@@ -311,8 +311,9 @@ fn exec_stream(cx: &mut Ctx, c: &StreamCase) {
 
 // ---------------------------------------------------------------- (c) one huge update call
 
-/// One `update()` call whose slice is longer than 2^32 bytes (a file read or mapped whole): the
-/// per-call length arithmetic must not truncate either. Oracles: the hooked counter after the
+/// One `update()` call whose slice is longer than 2^32 bytes, or that takes a counter across its
+/// first word boundary in a single call (a file read or mapped whole): the per-call length and
+/// carry arithmetic must not truncate either. Oracles: the hooked counter after the
 /// call, the digest of the same bytes fed in pieces, and (where the model is fast) the reference.
 pub struct HugeCase {
     id: HashId,
@@ -414,6 +415,13 @@ fn huge_menu(thorough: bool) -> Vec<HugeCase> {
         HugeCase { id: h(Fam::Blake, 512), total: g4 + 129, chunked: false, refd: thorough },
         HugeCase { id: h(Fam::Jh, 256), total: g4 + 65, chunked: thorough, refd: false },
         HugeCase { id: h(Fam::Skein, 512), total: g4 + 64, chunked: false, refd: thorough },
+        // one call across the *first* word boundary of each counter format
+        HugeCase { id: h(Fam::Blake, 256), total: (1 << 29) + 67, chunked: false, refd: true },
+        HugeCase { id: h(Fam::Blake, 224), total: (1 << 29) + 4096 + 1, chunked: true, refd: false },
+        HugeCase { id: h(Fam::Jh, 224), total: (1 << 29) + 100, chunked: true, refd: false },
+        HugeCase { id: h(Fam::Groestl, 224), total: 64 * 65536 + 129, chunked: true, refd: true },
+        HugeCase { id: h(Fam::Groestl, 512), total: 128 * 256 + 200, chunked: true, refd: true },
+        HugeCase { id: h(Fam::Groestl, 384), total: 128 * 65536 + 5, chunked: true, refd: false },
     ];
     if thorough {
         for (fam, bitss) in [(Fam::Blake, [224u32, 256, 384, 0]), (Fam::Groestl, [224, 384, 512, 0]), (Fam::Jh, [224, 384, 512, 0]), (Fam::Skein, [256, 1024, 0, 0])] {
@@ -485,7 +493,7 @@ pub fn run(cx: &mut Ctx) {
             }
             cx.log.announce(&hc.desc());
             cx.log.nontrivial();
-            cx.log.class(&format!("single-update-over-4GiB/{}", hc.id.name()));
+            cx.log.class(&format!("single-update-{}/{}", if hc.total >= 1 << 32 { "over-4GiB" } else { "across-first-counter-word" }, hc.id.name()));
             exec_huge(cx, &hc);
         }
     }
